@@ -16,8 +16,8 @@ import driver as D
 import memdriver as M
 
 RULE = ("a case is one program of the enumerated catalogue (sim/vprog): one public entry point x representation x small "
-        "digraph shape (trivial, path, cycle, dense, two SCCs, non-contiguous map {0,2,9}, map with a successor id >= "
-        "order) x argument class (in-range, order, order+1, 2^40, usize::MAX; huge orders for O(1) constructors; user "
+        "digraph shape (trivial, path, cycle, dense, two SCCs, non-contiguous maps {0,2,9}, {0,1,7} with a successor id >= order, "
+        "{0,1,70} with a tail id far beyond the order) x argument class (in-range, order, order+1, 2^40, usize::MAX; huge orders for O(1) constructors; user "
         "callback / iterator panicking at its 1st or 2nd call), the threaded operations at 1..4 simulated CPUs. Lane U "
         "executes it under Miri (any diagnostic is a violation; a Rust panic or any return value is acceptable), lane L "
         "executes it three times natively under the allocation ledger. Non-trivial = the argument is outside the digraph, "
@@ -28,7 +28,7 @@ RULE = ("a case is one program of the enumerated catalogue (sim/vprog): one publ
 def nontrivial(name):
     entry, rep, shape, x, y, cb, t = name.split("/")
     return x not in ("in0", "inlast") or y not in ("in0", "inlast") or cb != "cb0" or t not in ("t0", "t1") \
-        or shape in ("mapgap", "maphigh")
+        or shape.startswith("map")
 
 
 def locate_leak(ws, names, programs, where, miri_seed, flags, seed):
@@ -80,13 +80,18 @@ def run(tier):
     if tier == "quick":
         th = [i for i in th if names[i].split("/")[6] in ("t2", "t3")]
     rates = ["0.05", "0.1", "0.2", "0.3"]
+    jobs = []
+    per_seed = max(1, njobs // nseeds) if nseeds < njobs else 1
     for k in range(nseeds):
         s = (miri_seed + 1 + k) % (1 << 31)
         flags = "-Zmiri-preemption-rate=%s" % rates[k % len(rates)]
-        d2, f2 = M.run_catalogue(ws, names, th, s, flags, os.path.join(workdir, "seed%02d" % k), njobs)
+        for part in range(per_seed):
+            jobs.append({"indices": th[part::per_seed], "seed": s, "flags": flags,
+                         "workdir": os.path.join(workdir, "seed%02d_%02d" % (k, part))})
+    for j, d2, f2, _ in M.run_pool(ws, names, jobs, njobs):
         for f in f2:
-            f["miri_seed"], f["flags"] = s, flags
-        done += [(i, s) for i, _ in d2]
+            f["miri_seed"], f["flags"] = j["seed"], j["flags"]
+        done += [(i, j["seed"]) for i, _ in d2]
         failures += f2
     batches.append({"what": "threaded programs x Miri scheduler/weak-memory seeds with preemption", "programs": len(th),
                     "miri_seeds": nseeds, "preemption_rates": rates})
